@@ -4,6 +4,7 @@ import (
 	"bufio"
 	"fmt"
 	"io"
+	"os"
 	"os/exec"
 	"strconv"
 	"strings"
@@ -78,6 +79,10 @@ func (s *Solver) start() error {
 		return err
 	}
 	s.dead = false
+	if p := os.Getenv("VERIF_SMTLOG"); p != "" && s.Log == nil {
+		f, _ := os.OpenFile(fmt.Sprintf("%s.%s.%d", p, s.Kind, s.cmd.Process.Pid), os.O_CREATE|os.O_WRONLY|os.O_TRUNC, 0o644)
+		s.Log = f
+	}
 	pre := "(set-option :produce-models true)\n"
 	if s.Kind == "cvc5" {
 		pre += "(set-logic ALL)\n"
@@ -193,6 +198,9 @@ func (s *Solver) CheckText(body string, want []*Term, wantRefs []string) (SatRes
 		return Unknown, nil
 	}
 	ans, err := s.readReplyTimeout(s.Timeout + 5*time.Second)
+	if s.Log != nil {
+		fmt.Fprintf(s.Log, "; -> %s (%v) %.3fs\n", ans, err, time.Since(t0).Seconds())
+	}
 	if err != nil {
 		s.restart()
 		atomic.AddInt64(&s.Stats.UnknownN, 1)
